@@ -54,7 +54,8 @@ Inductive value :=
 | VInt (z : Z)
 | VStr (s : string)
 | VRow (h : nat)                    (* ObjectRow, by heap handle                         *)
-| VSlot (name : string).            (* NicknameSlot (forward reference)                  *)
+| VSlot (name : string)             (* NicknameSlot (forward reference)                  *)
+| VUndef.                           (* jinja2.Undefined: lives inside formulas only      *)
 
 Record cell := mkCell {
   c_table : string; c_id : Z; c_index : Z;
@@ -143,31 +144,94 @@ Definition is_word (s : string) : bool :=
 Definition first_is_zero (s : string) : bool :=
   match s with String c _ => (nat_of_ascii c =? 48)%nat | _ => false end.
 
-(* utils/template_utils.py look_for_number, on the supported alphabet *)
+(* utils/template_utils.py look_for_number: exact for every string without a "." *)
+Definition has_dot (s : string) : bool :=
+  negb (str_all (fun c => negb (nat_of_ascii c =? 46)%nat) s).
+
 Definition look_for_number (s : string) : result value :=
+  if has_dot s then Err Unsupported
+  else match s with
+       | EmptyString => Ok (VStr s)
+       | _ => if first_is_zero s then Ok (VStr s)
+              else if all_digits s then Ok (VInt (digits_val 0 s))
+              else Ok (VStr s)
+       end.
+
+(* Jinja NativeEnvironment (native_concat): ast.literal_eval(ast.parse(raw, mode="eval")),
+   the raw text when that raises ValueError / SyntaxError.  Exact on the alphabet
+   A-Z a-z 0-9 _ space - , except for texts that could be a non-decimal numeric literal
+   (a digit-led token containing a letter: 1e5, 0x1f, 1j) and the words True / False. *)
+Definition is_upper (c : ascii) : bool :=
+  let n := nat_of_ascii c in (65 <=? n)%nat && (n <=? 90)%nat.
+Definition is_alpha (c : ascii) : bool := is_lower c || is_upper c.
+Definition is_space (c : ascii) : bool := (nat_of_ascii c =? 32)%nat.
+Definition is_us (c : ascii) : bool := (nat_of_ascii c =? 95)%nat.
+Definition is_minus (c : ascii) : bool := (nat_of_ascii c =? 45)%nat.
+Definition is_sigma (c : ascii) : bool :=
+  is_alpha c || is_digit c || is_us c || is_space c || is_minus c.
+
+Fixpoint rstrip (s : string) : string :=
   match s with
-  | EmptyString => Ok (VStr s)
-  | _ =>
-    if all_digits s then
-      if first_is_zero s then Ok (VStr s) else Ok (VInt (digits_val 0 s))
-    else if is_word s then Ok (VStr s)
-    else if String.eqb s "None" then Ok (VStr s)
-    else match s with
-         | String "-" r => if all_digits r then Ok (VStr s) else Err Unsupported
-         | _ => Err Unsupported
-         end
+  | EmptyString => EmptyString
+  | String c r =>
+    match rstrip r with
+    | EmptyString => if is_space c then EmptyString else String c EmptyString
+    | r' => String c r'
+    end
   end.
 
-(* Jinja NativeEnvironment: ast.literal_eval of the rendered text, on the supported alphabet *)
+Fixpoint lstrip (s : string) : string :=
+  match s with
+  | String c r => if is_space c then lstrip r else s
+  | EmptyString => EmptyString
+  end.
+
+Fixpoint drop_us (s : string) : string :=
+  match s with
+  | EmptyString => EmptyString
+  | String c r => if is_us c then drop_us r else String c (drop_us r)
+  end.
+
+(* no "_" first, last or doubled *)
+Fixpoint us_ok (prev_us : bool) (s : string) : bool :=
+  match s with
+  | EmptyString => negb prev_us
+  | String c r => if is_us c then negb prev_us && us_ok true r else us_ok false r
+  end.
+
+(* Python decinteger: nonzerodigit (["_"] digit)* | "0"+ (["_"] "0")* *)
+Definition dec_literal (u : string) : option Z :=
+  match u with
+  | EmptyString => None
+  | _ =>
+    if str_all (fun c => is_digit c || is_us c) u && us_ok true u then
+      let d := drop_us u in
+      if first_is_zero d && negb (str_all (fun c => (nat_of_ascii c =? 48)%nat) d) then None
+      else Some (digits_val 0 d)
+    else None
+  end.
+
+Definition first_is (p : ascii -> bool) (s : string) : bool :=
+  match s with String c _ => p c | EmptyString => false end.
+
 Definition native_str (s : string) : result value :=
   match s with
   | EmptyString => Ok (VStr s)
   | _ =>
-    if all_digits s then
-      if first_is_zero s && negb (str_all (fun c => (nat_of_ascii c =? 48)%nat) s)
-      then Ok (VStr s) else Ok (VInt (digits_val 0 s))
-    else if is_word s then Ok (VStr s)
-    else Err Unsupported
+    if negb (str_all is_sigma s) then Err Unsupported
+    else if first_is is_space s then Ok (VStr s)
+    else
+      let t := rstrip s in
+      let neg := first_is is_minus t in
+      let body := if neg then lstrip (match t with String _ r => r | EmptyString => t end) else t in
+      if first_is is_digit body && negb (str_all (fun c => negb (is_alpha c)) body) then Err Unsupported
+      else match dec_literal body with
+           | Some v => Ok (VInt (if neg then - v else v))
+           | None =>
+             if String.eqb t "None" then Ok VNull
+             else if String.eqb t "True" || String.eqb t "False" then Err Unsupported
+             else Ok (VStr s)
+           end
   end.
 
 Fixpoint split_dot_aux (cur : string) (s : string) : list string :=
@@ -268,6 +332,23 @@ Definition cur_obj (s : st) : option cell :=
 Definition row_attr (c : cell) (f : string) : option value :=
   if String.eqb f "id" then Some (VInt (c_id c)) else lookup f (c_fields c).
 
+(* attribute names that Python finds on the object before ObjectRow.__getattr__ / that int
+   defines itself: the model does not evaluate those *)
+Fixpoint ends_us2 (s : string) : bool :=
+  match s with
+  | String a (String b EmptyString) => is_us a && is_us b
+  | String _ r => ends_us2 r
+  | EmptyString => false
+  end.
+Definition is_dunder (f : string) : bool :=
+  String.prefix "__" f && ends_us2 f && (4 <=? String.length f)%nat.
+Definition py_own_attr (f : string) : bool :=
+  is_dunder f ||
+  existsb (String.eqb f)
+    ["_tablename"; "_values"; "_child_index"; "_id"; "yaml_loader"; "yaml_dumper"; "yaml_tag";
+     "as_integer_ratio"; "bit_count"; "bit_length"; "conjugate"; "denominator"; "from_bytes";
+     "imag"; "is_integer"; "numerator"; "real"; "to_bytes"]%string.
+
 (* names that exist in the evaluation namespace but that the model does not cover *)
 Definition reserved_name (n : string) : bool :=
   existsb (String.eqb n)
@@ -301,19 +382,22 @@ Fixpoint eval_expr (e : env) (x : expr) (s : st) : result (st * value) :=
   | EInt z => Ok (s, VInt z)
   | EVar n =>
     do r <- lookup_name e s n;
-    match r with Some v => Ok (s, v) | None => Err Unsupported (* jinja Undefined *) end
+    match r with Some v => Ok (s, v) | None => Ok (s, VUndef) end
   | EAttr a f =>
     do '(s1, v) <- eval_expr e a s;
     match v with
     | VRow h =>
+      if py_own_attr f then Err Unsupported else
       match nth_error (heap s1) h with
-      | Some c => match row_attr c f with Some w => Ok (s1, w) | None => Err Unsupported end
+      | Some c => match row_attr c f with Some w => Ok (s1, w) | None => Ok (s1, VUndef) end
       | None => Err (Internal "dangling-handle")
       end
     | VSlot n =>
       if String.eqb f "id" then do '(s2, i) <- touch_slot s1 n; Ok (s2, VInt i)
       else Err Unsupported
-    | _ => Err Unsupported
+    | VInt _ | VNull => if py_own_attr f then Err Unsupported else Ok (s1, VUndef)
+    | VUndef => dge "undefined"
+    | VStr _ => Err Unsupported          (* str has many attributes of its own *)
     end
   | EAdd a b =>
     do '(s1, v1) <- eval_expr e a s; do '(s2, v2) <- eval_expr e b s1;
@@ -344,6 +428,7 @@ Definition to_str (s : st) (v : value) : result string :=
               | Some c => Ok (Z_to_str (c_id c))
               | None => Err (Internal "dangling-handle") end
   | VSlot _ => Err Unsupported          (* repr of the slot object *)
+  | VUndef => Ok EmptyString
   end.
 
 Fixpoint render_pieces (e : env) (ps : list piece) (s : st) : result (st * string) :=
@@ -363,7 +448,11 @@ Definition render_formula (e : env) (ps : list piece) (s : st) : result (st * va
     match ps with
     | [PExpr x] =>
       do '(s1, v) <- eval_expr e x s;
-      match v with VStr t => do w <- native_str t; Ok (s1, w) | _ => Ok (s1, v) end
+      match v with
+      | VStr t => do w <- native_str t; Ok (s1, w)
+      | VUndef => dge "undefined"
+      | _ => Ok (s1, v)
+      end
     | _ => do '(s1, t) <- render_pieces e ps s; do w <- native_str t; Ok (s1, w)
     end
   else
@@ -485,6 +574,7 @@ Fixpoint flatten_fields (s : st) (fields : list (string * value)) : result (st *
       | VSlot nm => match lookup nm (slots s) with
                     | Some sl => do '(s1, i) <- touch_slot s nm; Ok (s1, ORef (s_table sl) i)
                     | None => Err (Internal "KeyError") end
+      | VUndef => Err (Internal "undefined-stored")      (* never stored: see render_formula *)
       end;
     do '(s2, rest) <- flatten_fields s1 r;
     Ok (s2, (n, o) :: rest)
@@ -503,13 +593,14 @@ Definition write_row (s : st) (h : nat) : result st :=
 Definition count_of (v : value) : result Z :=
   match v with
   | VInt z => Ok z
-  | VStr x => if all_digits x then Ok (digits_val 0 x)
+  | VStr x => if String.eqb x "" then dge "count" else
+              if all_digits x then Ok (digits_val 0 x)
               else if is_word x then
                 (if existsb (String.eqb x) ["inf"; "infinity"; "nan"]%string then Err Unsupported
                  else if existsb (fun c => (nat_of_ascii c =? 95)%nat) (list_ascii_of_string x)
                       then Err Unsupported else dge "count")
               else Err Unsupported
-  | VNull | VRow _ | VSlot _ => dge "count"
+  | VNull | VRow _ | VSlot _ | VUndef => dge "count"
   end.
 
 (* ------------------------------------------------------------------ the evaluator *)
